@@ -27,7 +27,7 @@ def register(S):
     def dumper(name, sort, requires=(), raises=None, loops=None, extra_ensures=None, hints=()):
         ens = {"appends_enc": (APPENDS, P_ENC)}
         ens.update(extra_ensures or {})
-        S.contract(F + name, params={"obj": sort, "stream": "joinlist"}, requires=list(requires), ensures=ens,
+        S.contract(F + name, params={"obj": sort, "stream": "joinlist"}, requires=list(requires), ensures=ens, effect_free=True,
                    raises=raises or {}, modifies=["stream"], loops=loops or {}, hints=list(hints))
 
     dumper("_dump_none", "val", requires=["isnone(obj)"])
@@ -50,15 +50,15 @@ def register(S):
             "plain_list(obj) == plain_list(rest)",
             "implies(not sized_list(rest), not sized_list(obj))",
         ]}})
-    S.contract(F + "_undumpable", params={"obj": "val", "stream": "joinlist"},
+    S.contract(F + "_undumpable", params={"obj": "val", "stream": "joinlist"}, effect_free=True,
                noreturn=True, raises={"TypeError": {"props": P_ACC}}, modifies=[])
     dumper("_dump", "val", raises=ENC_RAISES, extra_ensures=PLAIN_ONLY)
-    S.contract(F + "dump", params={"obj": "val"}, result="bytes",
+    S.contract(F + "dump", params={"obj": "val"}, result="bytes", effect_free=True,
                ensures={"is_enc": ("result == enc(obj)", P_ENC), "returns_only_if_plain": ("plain(obj)", P_ACC)},
                raises=ENC_RAISES, modifies=[])
 
     # dumpable(): decides by exact type, total, no effect
-    S.contract(F + "dumpable", params={"obj": "val"}, result="bool",
+    S.contract(F + "dumpable", params={"obj": "val"}, result="bool", effect_free=True,
                ensures={"is_plain": ("result == plain(obj)", ["C04", "C03", "C09", "C08"])}, raises={}, modifies=[],
                loops={0: {"rest": "rest", "invariant": ["acc == True", "plain(obj) == plain_list(rest)"],
                           "havoc": {"acc": "bool"}}})
@@ -76,7 +76,8 @@ def register(S):
     SAFE_RAISES = {"Exception": {"props": P_SAFE}}      # the statement allows any exception on arbitrary bytes
 
     def loader(name, tag, loops_rt=None, loops_safe=None, calls=None, hints=(), result="val", split=()):
-        S.contract(F + name, params={"stream": "obj:BytesIO"}, result=result, behaviours={
+        # effect_free: decoding performs no call, attribute access, import or construction (no ghost event at all)
+        S.contract(F + name, params={"stream": "obj:BytesIO"}, result=result, effect_free=True, behaviours={
             "roundtrip": dict(ghost={"v": "val", "rest": "bytes"},
                               requires=["T.%s + stream.unread == enc(v) + rest" % tag] + RT_REQ,
                               ensures=RT_ENS, raises={}, modifies=["stream.unread"], loops=loops_rt,
@@ -135,19 +136,21 @@ def register(S):
         loader(name, tag, loops_rt=LOOP_RT, loops_safe=LOOP_SAFE,
                calls={"_load#0": {"ghost": {"v": "head(todo)", "rest": "enc_list(tail(todo)) + rest"}}})
 
-    S.contract(F + "_load", params={"stream": "obj:BytesIO"}, result="val", behaviours={
+    S.contract(F + "_load", params={"stream": "obj:BytesIO"}, result="val", effect_free=True, behaviours={
         "roundtrip": dict(ghost={"v": "val", "rest": "bytes"},
                           requires=["stream.unread == enc(v) + rest"] + RT_REQ, ensures=RT_ENS, raises={},
                           modifies=["stream.unread"], calls={"*": {"ghost": {"v": "v", "rest": "rest"}}},
                           native_build="{'stream': enc(v) + rest}"),
         "safety": dict(ensures=SAFE_ENS, raises=SAFE_RAISES, modifies=["stream.unread"]),
     })
-    S.contract(F + "load", params={"data": "val"}, result="val", behaviours={
+    S.contract(F + "load", params={"data": "val"}, result="val", effect_free=True, behaviours={
         "roundtrip": dict(ghost={"v": "val"}, requires=["data == mkbytes(enc(v))"] + RT_REQ,
                           ensures={"returns_v": ("same(result, v)", P_DEC)}, raises={}, modifies=[],
                           calls={"_load#0": {"ghost": {"v": "v", "rest": "empty()"}}},
                           native_build="{'data': enc(v)}"),
-        "safety": dict(ensures=SAFE_ENS, raises=SAFE_RAISES, modifies=[]),
+        # decoding is a function of the bytes (assumed: the library models use fresh values for what they return)
+        "safety": dict(ensures=dict(SAFE_ENS, assumed_deterministic=("same(result, decoded(data))", ["C08", "C19", "C01"])),
+                       raises=SAFE_RAISES, modifies=[]),
     })
 
 
